@@ -1958,6 +1958,7 @@ func (db *DB) newSyncExecutor(ctx context.Context) (*syncExecutor, error) {
 		return nil, nil
 	}
 
+	initialized := db.db != nil
 	if err := db.init(ctx); err != nil {
 		return nil, err
 	} else if db.db == nil {
@@ -1967,6 +1968,20 @@ func (db *DB) newSyncExecutor(ctx context.Context) (*syncExecutor, error) {
 	pos, err := db.Pos()
 	if err != nil {
 		return nil, fmt.Errorf("pos: %w", err)
+	}
+
+	// The local state may have been reset while running (ResetLocalState,
+	// auto-recover). init compares with the replica only once, so do it again
+	// whenever we are back at position zero: otherwise TXIDs restart below the
+	// replica's and nothing is uploaded while syncs keep succeeding.
+	if initialized && pos.TXID == 0 && db.Replica != nil {
+		db.syncState = syncState{} // it described the local files that are gone
+		if err := db.checkDatabaseBehindReplica(ctx); err != nil {
+			return nil, fmt.Errorf("check database behind replica: %w", err)
+		}
+		if pos, err = db.Pos(); err != nil {
+			return nil, fmt.Errorf("pos: %w", err)
+		}
 	}
 
 	return &syncExecutor{
